@@ -811,3 +811,7 @@ CORPUS += [
     V("C04", "mtvrp-checker-capacity-rank2-again-c04", R + "mtvrp/env.py", 'used_cap <= td["vehicle_capacity"][:, 0]', 'used_cap <= td["vehicle_capacity"]', "C04.a"),
     V("C06", "eq-mtvrp-checker-capacity-squeeze", R + "mtvrp/env.py", 'used_cap <= td["vehicle_capacity"][:, 0]', 'used_cap <= td["vehicle_capacity"].squeeze(-1)', None),
 ]
+
+CORPUS += [
+    V("C12", "pomo-regroup-multistart-factor-first", "rl4co/models/zoo/pomo/model.py", "(n_aug, n_start)", "(n_start, n_aug)", "C12.b", count=99),
+]
